@@ -382,6 +382,7 @@ pub fn run(tier: &str, prop: Prop) -> i32 {
     parsed_ranges(&mut rep, prop);
     other_constructors(&mut rep, prop, what);
     related_values(&mut rep, prop, what);
+    tail_runs_with_leftovers(&mut rep, prop, what);
     failing_writer(&mut rep, prop);
     if prop == Prop::C06 {
         tokens_roundtrip(&mut rep);
@@ -683,6 +684,78 @@ fn related_values(rep: &mut Report, prop: Prop, what: &str) {
     }
     let _ = prop;
     rep.sub("related-values", "every rank pair beside a leftover combo, and the first 1..1326 combos in three weights: the range is cloned, re-parsed from its text and re-collected from its items, then used heavily (every observer twice, two evaluators built from it and partly drained) and dropped; the range itself until then, and the three relatives afterwards, keep the original contents, text and split", n, n, false, json!({}));
+}
+
+/// A run of rank pairs (every start, every end, of the suited and offsuit rows under four high cards and of the pocket
+/// row) together with exactly L leftover single combos for every L in 0..=40: a formatter that keeps count of what its
+/// tokens cover (to skip the leftover section when nothing is left) must get the count right for every run shape.
+fn tail_runs_with_leftovers(rep: &mut Report, prop: Prop, what: &str) {
+    // leftover pool: one combo from each of 40 rank pairs that no run below touches (offsuit pairs under K, Q, J, T)
+    let mut pool: Vec<Combo> = vec![];
+    for h in [1u8, 2, 3, 4] {
+        for k in (h + 1)..13 {
+            if pool.len() < 40 && k != 10 && k != 11 && k != 12 {
+                pool.push(RP::Offsuit(h, k).combos()[(h as usize + k as usize) % 12]);
+            }
+        }
+    }
+    while pool.len() < 40 {
+        let i = pool.len() as u8;
+        pool.push(RP::Suited(1 + i % 4, 6 + i % 4).combos()[(i % 4) as usize]);
+    }
+    let mut jobs: Vec<(Vec<RP>, usize)> = vec![];
+    for (kind, h) in [(0u8, 0u8), (0, 8), (0, 10), (0, 11), (1, 0), (1, 8), (1, 10), (1, 11), (2, 0)] {
+        let cells: Vec<RP> = match kind {
+            0 => ((h + 1)..13).map(|k| RP::Offsuit(h, k)).collect(),
+            1 => ((h + 1)..13).map(|k| RP::Suited(h, k)).collect(),
+            _ => (0..13).map(RP::Pocket).collect(),
+        };
+        for a in 0..cells.len() {
+            for b in a..cells.len() {
+                // pocket row: only runs touching either end, to keep the family small
+                if kind == 2 && a != 0 && b != cells.len() - 1 {
+                    continue;
+                }
+                jobs.push((cells[a..=b].to_vec(), 0));
+            }
+        }
+    }
+    let outs = par_map(jobs.len(), |j| {
+        let (run, _) = &jobs[j];
+        let mut bad = vec![];
+        let mut n = 0u64;
+        for l in 0..=40usize {
+            let mut c = Contents::new();
+            for rp in run {
+                add_rp(&mut c, rp, bits(0.5));
+            }
+            let mut ok = true;
+            for cb in pool.iter().take(l) {
+                if c.contains_key(cb) {
+                    ok = false;
+                }
+                c.insert(*cb, bits(0.25));
+            }
+            if !ok {
+                continue;
+            }
+            n += 1;
+            if let Some(b) = check(prop, &c) {
+                if bad.len() < 2 {
+                    bad.push((c, b));
+                }
+            }
+        }
+        (bad, n)
+    });
+    let mut n = 0u64;
+    for (bad, k) in outs {
+        n += k;
+        for (c, b) in bad {
+            record(rep, "runs-with-leftovers", &c, what, b);
+        }
+    }
+    rep.sub("runs-with-leftovers", "every run of adjacent rank pairs in the suited and offsuit rows under A, 6, 4 and 3 and the end-touching runs of the pocket row, each together with exactly L leftover single combos for every L in 0..=40 (12, 24, 36 among them)", n, n, false, json!({}));
 }
 
 struct Limited {
